@@ -144,7 +144,22 @@ Theorem C20_shipped_json : forall name,
 Proof. exact (shipped_json burrow_schema all_templates _ C20_table_embed C20_table_json). Qed.
 Print Assumptions C20_shipped_json.
 
-(* Which template a module executes.  Coordinator.Configure parses the file named by template-open (and, with
+(* jsonencoder never fails on what the evaluator produces.  templateJSONEncoder discards json.Marshal's error and
+   returns "" (helpers.go:64-67) - in a value position that is malformed JSON with no render error, and the model does
+   the same (apply_fn FJson on a value containing a non-finite float).  For the Go types of the template data Marshal can
+   fail only on a NaN / infinite float; no value a template can reach in the data built from an evaluator reply within
+   the 2^24 bounds contains one, so the helper returns the marshalled text. *)
+Theorem C20_jsonencoder_total : forall ts minimum allowed now g,
+  bounded ts -> Eval.eval_group ts minimum allowed now = Eval.Ok g ->
+  forall sch nm cl gr id ex chain v,
+    eval_chain0 sch (data_of sch nm cl gr id ex (Eval.filter_view g)) chain = Ok v ->
+    contains_nonfinite v = false /\ apply_fn sch FJson [v] = Ok (VAbsStr true).
+Proof. exact jsonencoder_total. Qed.
+Print Assumptions C20_jsonencoder_total.
+
+(* MODEL-LEVEL DEFINITION MADE EXPLICIT (true by construction: it unfolds Tmpl.module_renders; its content comes from the
+   "conf" tie, which runs the real Coordinator.Configure - it is not counted as coverage of the property).
+   Which template a module executes.  Coordinator.Configure parses the file named by template-open (and, with
    send-close, template-close) and hands the template objects to the module; Notify executes the close one for
    stateGood and the open one otherwise.  Modelled: that association (Tmpl.load_templates / module_renders; tied to
    the real Configure with its default parser by the "conf" cases of the probe).  Trusted: text/template's ParseFiles
@@ -182,7 +197,10 @@ Theorem C20_configured_modules_json : forall cfg, NoDup (map mc_name cfg) ->
 Proof. exact (fun cfg => configured_modules_json burrow_schema all_templates _ cfg C20_table_embed C20_table_json). Qed.
 Print Assumptions C20_configured_modules_json.
 
-(* The data a module hands to its templates.  Modelled: the module as a state machine over the notifications it is
+(* MODEL-LEVEL DEFINITIONS MADE EXPLICIT (C20_module_data_offers_configured and C20_module_data_fields unfold
+   Tmpl.notify_step / run_notifications and are true by construction; their content comes from the "seq" tie, which runs the
+   real checkAndSendResponseToModules / notifyModule / Notify - they are not counted as coverage of the property).
+   The data a module hands to its templates.  Modelled: the module as a state machine over the notifications it is
    handed (Tmpl.notify_step: Notify reads its extras map and leaves it alone; cluster and group come from the reply, id and
    start from the group's incident).  Whatever was notified before, the record carries exactly the configured extras and
    that notification's values.  Tied to the real HTTPNotifier.Notify / EmailNotifier.Notify behind the real
@@ -199,7 +217,10 @@ Theorem C20_module_data_fields : forall (R : Type) extras sent (l : list (notifi
 Proof. exact (@module_data_fields). Qed.
 Print Assumptions C20_module_data_fields.
 
-(* ... and every notification of a sequence renders through the configured module on that record *)
+(* ... and every notification of a sequence renders through the configured module on that record.  evaluator_reply is
+   the problems-only view of an evaluation or the NOTFOUND reply (caching.go:137-147); the notifier drops NOTFOUND before
+   any template runs (coordinator.go:400-404; Notifier.v live_resp / on_response), it is included so that nothing hangs
+   on that. *)
 Theorem C20_notified_module_renders : forall cfg, NoDup (map mc_name cfg) ->
   forall m good, In m cfg -> (good = true -> mc_send_close m = true) -> assoc (mc_file m good) all_templates <> None ->
   forall extras sent (l : list (notification Eval.gstatus)) nm k n d,
@@ -331,6 +352,18 @@ Proof.
   split; [repeat constructor; simpl; intuition discriminate|].
   vm_compute. repeat split. eexists; reflexivity.
 Qed.
+
+(* outside the evaluator's range: a NaN completeness (0/0, which the evaluator never computes) makes jsonencoder return
+   the empty string and {{.Result.Complete}} print NaN - the http-post template still renders, to malformed JSON *)
+Example C20_ex_nan_outside_evaluator :
+  let nan := F32.f32_div F32.f32_zero F32.f32_zero in
+  let g := (Eval.mkGstatus Eval.StErr nan [] 0 None 0) in
+  let d := data_of burrow_schema ex_nm "c" "g" "i" [] g in
+  f32_finite nan = false /\ contains_nonfinite d = true /\
+  (exists r, eval_chain0 burrow_schema d ["Result"] = Ok r /\ apply_fn burrow_schema FJson [r] = Ok (VStr "")) /\
+  match exec burrow_schema t_default_http_post d with Ok out => pieces_valid out | Err _ => true end = false /\
+  match exec burrow_schema t_default_slack_post d with Ok out => pieces_valid out | Err _ => false end = true.
+Proof. vm_compute. repeat split. eexists; split; reflexivity. Qed.
 
 (* holes filled the way Go fills them: a concrete rendering of the close template is accepted by json_valid, and an
    unsafe name is exactly what breaks it (outside the property's promise) *)
